@@ -44,6 +44,8 @@ Outside the statement (reported through `flags`, the check does not compare such
 * `nestUnspec` — 6.10.3.4p4: a function-like name that ends its own replacement and finds its
   `(` in the following source; the standard leaves open whether that is a nested replacement;
 * `dirInArgs` — 6.10.3p11: a directive line inside the arguments of an invocation (undefined).
+* `dirAfterName`, `strOfInvocation`, `emptyWithSpace` are informational (places where cproc is
+  known to deviate; the check uses them to name the recorded finding a disagreement belongs to).
 * `crossInvocation` is informational: an invocation whose `(` and `)` have different hide sets
   (it starts inside one replacement list and ends outside of it).
 -/
@@ -101,6 +103,9 @@ inductive RErr where
 
 inductive Flag where
   | nestUnspec | dirInArgs | crossInvocation
+  | dirAfterName      -- informational: a function-like name was followed by a directive line
+  | strOfInvocation   -- informational: `#` applied to an argument that contains an invocation and is also used plainly
+  | emptyWithSpace    -- informational: a replacement by no tokens passed white space on
   deriving DecidableEq, Repr, Inhabited
 
 inductive Dir where
@@ -394,6 +399,27 @@ def usedPlain (m : MacroDef) (i : Nat) : Bool := (elems m m.body).any fun e =>
   | .param j _ => j = i
   | _ => false
 
+/-- `# parameter` for a parameter that also occurs plainly -/
+def usedStr (m : MacroDef) (i : Nat) : Bool := (elems m m.body).any fun e =>
+  match e with
+  | .str j _ => j = i
+  | _ => false
+
+/-- does the token list contain the name of a function-like macro followed by `(`? -/
+def hasInvocation (tbl : List MacroDef) : List HTok → Bool
+  | [] => false
+  | [_] => false
+  | a :: b :: r =>
+    (a.tok.kind = .TIDENT && b.tok.kind = .TLPAREN &&
+      (match tbl.find? (·.name = a.tok.lit.getD []) with | some m => m.func | none => false))
+    || hasInvocation tbl (b :: r)
+
+/-- a parameter in a place preceded by white space whose argument is replaced by nothing -/
+def emptySpaced (full : Nat → List HTok) (es : List Elem) : Bool := es.any fun e =>
+  match e with
+  | .param i sp => sp && (full i).isEmpty
+  | _ => false
+
 structure Out where
   toks : List PTok := []
   err : Option RErr := none
@@ -438,7 +464,8 @@ def expandH (strict : Bool) : Nat → Tbl → List Item → List HTok × Option 
         if unspec then (k.1, k.2.1, .nestUnspec :: k.2.2) else k
       else if ¬ m.func then
         let body := respace (hsadd (union T.hs [m.name]) (m.body.map fun t => ⟨t, [], false⟩)) T.tok.space
-        expandH strict n tbl (body.1.map .tok ++ pendItems body.2 rest)
+        let o := expandH strict n tbl (body.1.map .tok ++ pendItems body.2 rest)
+        if body.2 then (o.1, o.2.1, .emptyWithSpace :: o.2.2) else o
       else match rest with
         | .tok L :: rest1 =>
           if L.tok.kind ≠ .TLPAREN then keep ()
@@ -456,7 +483,12 @@ def expandH (strict : Bool) : Nat → Tbl → List Item → List HTok × Option 
                     (List.range args.length).map fun i =>
                       if usedPlain m i then expandH strict n tbl ((args.getD i []).map .tok) else ([], none, [])
                   match full.findSome? (·.2.1) with
-                  | some e => ([], some e, [])
+                  | some e =>
+                    -- an invocation left open inside an argument: an implementation that does not isolate
+                    -- the argument reads on; a directive further down is then inside its arguments
+                    ([], some e, full.flatMap (·.2.2) ++
+                      (if e = .unterminated ∧ rest2.any (fun x => match x with | .dir _ => true | .tok _ => false)
+                       then [.dirInArgs] else []))
                   | none =>
                     let hs := union (inter T.hs R.hs) [m.name]
                     let cross := if L.hs ≠ R.hs then [Flag.crossInvocation] else []
@@ -468,7 +500,12 @@ def expandH (strict : Bool) : Nat → Tbl → List Item → List HTok × Option 
                     let sub := subst (fun i => args.getD i []) done (elems m m.body) false
                     let body := respace (hsadd hs sub) T.tok.space
                     let o := expandH strict n tbl (body.1.map .tok ++ pendItems body.2 rest2)
-                    (o.1, o.2.1, cross ++ full.flatMap (·.2.2) ++ o.2.2)
+                    let info : List Flag :=
+                      (if (List.range args.length).any (fun i => usedStr m i && usedPlain m i &&
+                            hasInvocation tbl (args.getD i [])) then [Flag.strOfInvocation] else []) ++
+                      (if body.2 || emptySpaced done (elems m m.body) then [Flag.emptyWithSpace] else [])
+                    (o.1, o.2.1, cross ++ info ++ full.flatMap (·.2.2) ++ o.2.2)
+        | .dir _ :: _ => let k := keep (); (k.1, k.2.1, .dirAfterName :: k.2.2)
         | _ => keep ()
 
 /-- macro replacement of a translation unit -/
